@@ -3,8 +3,9 @@
 //! comparison and reporting is done by /verif/check (python) and by Coq; this program only executes.
 //!
 //! stdin, one case per line:   <id> <mode> <desc> ; <op> <op> ...
-//!   mode: ex | f64
+//!   mode: ex | f64 | f32 (f32 values are printed widened to f64 bits)
 //!   op:   u<i>=<val>   update instance i, then observe last() and the buffer population
+//!         q<i>=<val>   update instance i without observing (prints `-`; `E` if it failed)
 //!         l<i>         observe last() of instance i
 //!         c<i>         clone instance i (the clone gets the next free index)
 //!   val:  n/d (decimal integers)           -- at f64 the value is (n as f64)/(d as f64); or x<16 hex digits> (f64 bits)
@@ -61,6 +62,18 @@ impl Scalar for Ex {
     }
     fn show(self) -> String {
         Ex::show(self)
+    }
+    fn good(self) -> bool {
+        self.is_finite()
+    }
+}
+impl Scalar for f32 {
+    fn from_ratio(n: &BigInt, d: &BigInt) -> f32 {
+        use num::ToPrimitive;
+        n.to_f32().unwrap() / d.to_f32().unwrap()
+    }
+    fn show(self) -> String {
+        format!("x{:016x}", (self as f64).to_bits())
     }
     fn good(self) -> bool {
         self.is_finite()
@@ -404,7 +417,8 @@ fn run_case<T: Scalar>(desc: &str, ops: &[&str]) -> String {
             continue;
         }
         match kind {
-            "u" => {
+            "u" | "q" => {
+                let quiet = kind == "q";
                 let tok = val.unwrap();
                 let x = if let Some(h) = tok.strip_prefix('x') {
                     T::from_bits_token(u64::from_str_radix(h, 16).unwrap())
@@ -423,6 +437,8 @@ fn run_case<T: Scalar>(desc: &str, ops: &[&str]) -> String {
                         if s == "E" {
                             out.push('E');
                             inst[idx] = None;
+                        } else if quiet {
+                            out.push('-');
                         } else {
                             let pop = population(&v.dbg());
                             out.push_str(&format!("{s}@{pop}"));
@@ -545,6 +561,7 @@ fn main() {
                 run_case::<Ex>(desc, &ops)
             }
             "f64" => run_case::<f64>(desc, &ops),
+            "f32" => run_case::<f32>(desc, &ops),
             "mem" => mem_case(desc, ops[0].parse().unwrap()),
             _ => panic!("bad mode"),
         };
